@@ -66,7 +66,7 @@ theorem C12_nn [Bounded O] [DecidableEq O] {order : List Rat → List Nat} (hO :
     ∃ o, nearestNeighbor order t px py = .ok o ∧ specNN t.abs px py o = true ∧
       o ∈ t.abs ∧ ∀ o' ∈ t.abs, odist px py o ≤ odist px py o' := by
   have hw : wfNode t.maxC t.height t.root = true := by
-    have := hwf; simp [C11.Tree.WF] at this; exact this.1
+    have := hwf; simp [C11.Tree.WF] at this; exact this.1.1
   obtain ⟨st', e, p⟩ := nnNode_spec hO px py hv t.root t.height hw none
   obtain ⟨o0, ho0⟩ := List.exists_mem_of_ne_nil _ hne
   obtain ⟨d, o, hst, _⟩ := p.best o0 ho0
@@ -92,7 +92,7 @@ theorem C12_empty [Bounded O] {order : List Rat → List Nat} (hO : OrderOK orde
     (hv : ∀ o : O, (Bounded.bounds o).valid = true) :
     nearestNeighbor order t px py = .error Fault.nnNil := by
   have hw : wfNode t.maxC t.height t.root = true := by
-    have := hwf; simp [C11.Tree.WF] at this; exact this.1
+    have := hwf; simp [C11.Tree.WF] at this; exact this.1.1
   obtain ⟨st', e, p⟩ := nnNode_spec hO px py hv t.root t.height hw none
   have : st' = none := by
     rcases p.from_ with g | ⟨o, ho, _⟩
@@ -173,7 +173,7 @@ theorem C12_knn [Bounded O] [DecidableEq O] {order : List Rat → List Nat} (hO 
     (t : C11.Tree O) (hwf : t.WF = true) (k : Nat) (hk : k ≠ 1) (px py : Rat) :
     ∃ res, nearestNeighbors order t k px py = .ok res ∧ specKNN t.abs k px py res = true := by
   have hw : wfNode t.maxC t.height t.root = true := by
-    have := hwf; simp [C11.Tree.WF] at this; exact this.1
+    have := hwf; simp [C11.Tree.WF] at this; exact this.1.1
   obtain ⟨top', e, tk⟩ := knnNode_spec hO k hk px py t.root t.height hw [] [] (TopK.nil _ k)
   have hpad : pad k ([] : List (Rat × O)) = List.replicate k none := by simp [pad]
   rw [hpad] at e
@@ -254,7 +254,7 @@ theorem C12_knn_one [Bounded O] [DecidableEq O] {order : List Rat → List Nat} 
     (hv : ∀ o : O, (Bounded.bounds o).valid = true) :
     ∃ res, nearestNeighbors order t 1 px py = .ok res ∧ specKNN t.abs 1 px py res = true := by
   have hw : wfNode t.maxC t.height t.root = true := by
-    have := hwf; simp [C11.Tree.WF] at this; exact this.1
+    have := hwf; simp [C11.Tree.WF] at this; exact this.1.1
   obtain ⟨st', e, p⟩ := nnNode_spec hO px py hv t.root t.height hw none
   have e2 := knn1_eq order px py t.root t.height hw none st' e
   refine ⟨[st'.map (·.2)], ?_, ?_⟩
@@ -296,6 +296,100 @@ theorem C12_knn_all [Bounded O] [DecidableEq O] {order : List Rat → List Nat} 
   by_cases hk : k = 1
   · subst hk; exact C12_knn_one hO t hwf px py hv
   · exact C12_knn hO t hwf k hk px py
+
+/-! ### histories with interleaved queries: answers do not depend on earlier queries -/
+
+theorem runSteps_tree [DecidableEq O] [Bounded O] (H : Heur) (order : List Rat → List Nat) :
+    ∀ (steps : List (Step O)) (t t' : C11.Tree O) (as : List (Answer O)),
+      runSteps H order t steps = .ok (t', as) →
+      runOps H t (opsOf steps) = .ok t' ∧ as.length = numQ steps
+  | [], t, t', as, h => by
+    simp only [runSteps, pure, Except.pure] at h; cases h; exact ⟨rfl, rfl⟩
+  | .op o :: r, t, t', as, h => by
+    simp only [runSteps, bind, Except.bind] at h
+    cases hs : t.step H o with
+    | error e => rw [hs] at h; cases h
+    | ok p =>
+      rw [hs] at h
+      obtain ⟨t1, res⟩ := p
+      have := runSteps_tree H order r t1 t' as h
+      simp only [opsOf, numQ, runOps, hs, bind, Except.bind]
+      exact this
+  | .nn x y :: r, t, t', as, h => by
+    simp only [runSteps, evalQ, bind, Except.bind] at h
+    cases hr : runSteps H order t r with
+    | error e => rw [hr] at h; cases h
+    | ok p =>
+      rw [hr] at h; obtain ⟨t1, as1⟩ := p
+      simp only [pure, Except.pure] at h; cases h
+      have := runSteps_tree H order r t t' as1 hr
+      simp only [opsOf, numQ, List.length_cons]
+      exact ⟨this.1, by omega⟩
+  | .knn k x y :: r, t, t', as, h => by
+    simp only [runSteps, evalQ, bind, Except.bind] at h
+    cases hr : runSteps H order t r with
+    | error e => rw [hr] at h; cases h
+    | ok p =>
+      rw [hr] at h; obtain ⟨t1, as1⟩ := p
+      simp only [pure, Except.pure] at h; cases h
+      have := runSteps_tree H order r t t' as1 hr
+      simp only [opsOf, numQ, List.length_cons]
+      exact ⟨this.1, by omega⟩
+
+/-- **C12_history** — in a history of Insert/Delete calls with queries interleaved, queries leave
+the tree alone (the final tree is the one built by the operations only) and the answer to each
+query is the answer on the tree built from the operations before it — whatever queries were
+asked earlier (no state is carried between queries). -/
+theorem C12_history [DecidableEq O] [Bounded O] (H : Heur) (order : List Rat → List Nat) :
+    ∀ (pre : List (Step O)) (t : C11.Tree O) (q : Step O) (post : List (Step O)) (t' : C11.Tree O)
+      (as : List (Answer O)) (a : Answer O), (∀ tq, evalQ order tq q ≠ none) →
+      runSteps H order t (pre ++ q :: post) = .ok (t', as) →
+      runOps H t (opsOf (pre ++ q :: post)) = .ok t' ∧
+      ∃ tq, runOps H t (opsOf pre) = .ok tq ∧ as[numQ pre]? = evalQ order tq q
+  | [], t, q, post, t', as, a, hq, h => by
+    refine ⟨(runSteps_tree H order _ t t' as h).1, t, rfl, ?_⟩
+    cases q with
+    | op o => exact absurd rfl (hq t)
+    | nn x y =>
+      simp only [List.nil_append, runSteps, evalQ, bind, Except.bind] at h
+      cases hr : runSteps H order t post with
+      | error e => rw [hr] at h; cases h
+      | ok p => rw [hr] at h; simp only [pure, Except.pure] at h; cases h; simp [numQ, evalQ]
+    | knn k x y =>
+      simp only [List.nil_append, runSteps, evalQ, bind, Except.bind] at h
+      cases hr : runSteps H order t post with
+      | error e => rw [hr] at h; cases h
+      | ok p => rw [hr] at h; simp only [pure, Except.pure] at h; cases h; simp [numQ, evalQ]
+  | .op o :: pre, t, q, post, t', as, a, hq, h => by
+    simp only [List.cons_append, runSteps, bind, Except.bind] at h
+    cases hs : t.step H o with
+    | error e => rw [hs] at h; cases h
+    | ok p =>
+      rw [hs] at h
+      obtain ⟨t1, res⟩ := p
+      obtain ⟨g1, tq, g2, g3⟩ := C12_history H order pre t1 q post t' as a hq h
+      simp only [List.cons_append, opsOf, numQ, runOps, hs, bind, Except.bind]
+      exact ⟨g1, tq, g2, g3⟩
+  | .nn x y :: pre, t, q, post, t', as, a, hq, h => by
+    simp only [List.cons_append, runSteps, evalQ, bind, Except.bind] at h
+    cases hr : runSteps H order t (pre ++ q :: post) with
+    | error e => rw [hr] at h; cases h
+    | ok p =>
+      rw [hr] at h; obtain ⟨t1, as1⟩ := p
+      simp only [pure, Except.pure] at h; cases h
+      obtain ⟨g1, tq, g2, g3⟩ := C12_history H order pre t q post t' as1 a hq hr
+      simp only [List.cons_append, opsOf, numQ]
+      exact ⟨g1, tq, g2, by simpa using g3⟩
+  | .knn k x y :: pre, t, q, post, t', as, a, hq, h => by
+    simp only [List.cons_append, runSteps, evalQ, bind, Except.bind] at h
+    cases hr : runSteps H order t (pre ++ q :: post) with
+    | error e => rw [hr] at h; cases h
+    | ok p =>
+      rw [hr] at h; obtain ⟨t1, as1⟩ := p
+      simp only [pure, Except.pure] at h; cases h
+      obtain ⟨g1, tq, g2, g3⟩ := C12_history H order pre t q post t' as1 a hq hr
+      simp only [List.cons_append, opsOf, numQ]
+      exact ⟨g1, tq, g2, by simpa using g3⟩
 
 /-! ### the executable visiting order is a permutation -/
 
